@@ -225,20 +225,23 @@ func IsAvcBoundary(pkt RtpPacket) bool {
 
 	// TODO(chef): [fix] 检查数据长度有效性 202211
 	b := pkt.Body()
+	if len(b) < 1 {
+		return false
+	}
 	outerNaluType := avc.ParseNaluType(b[0])
 
 	if _, ok := boundaryNaluTypes[outerNaluType]; ok {
 		return true
 	}
 
-	if outerNaluType == NaluTypeAvcStapa {
+	if outerNaluType == NaluTypeAvcStapa && len(b) > 3 {
 		t := avc.ParseNaluType(b[3])
 		if _, ok := boundaryNaluTypes[t]; ok {
 			return true
 		}
 	}
 
-	if outerNaluType == NaluTypeAvcFua {
+	if outerNaluType == NaluTypeAvcFua && len(b) > 1 {
 		t := avc.ParseNaluType(b[1])
 		if _, ok := boundaryNaluTypes[t]; ok {
 			if b[1]&0x80 != 0 {
@@ -267,13 +270,16 @@ func IsHevcBoundary(pkt RtpPacket) bool {
 
 	// TODO(chef): [fix] 检查数据长度有效性 202211
 	b := pkt.Body()
+	if len(b) < 1 {
+		return false
+	}
 	outerNaluType := hevc.ParseNaluType(b[0])
 
 	if _, ok := boundaryNaluTypes[outerNaluType]; ok {
 		return true
 	}
 
-	if outerNaluType == NaluTypeHevcFua {
+	if outerNaluType == NaluTypeHevcFua && len(b) > 2 {
 		t := b[2] & 0x3F // 注意，这里是后6位，不是中间6位
 		if _, ok := boundaryNaluTypes[t]; ok {
 			if b[2]&0x80 != 0 {
